@@ -540,6 +540,7 @@ type c08CLICase struct {
 	Tool  string            `json:"tool"`
 	Files map[string]string `json:"files"`
 	Args  []string          `json:"args"`
+	Links map[string]string `json:"links,omitempty"` // symlink name -> target text
 }
 
 type c08Inj struct {
@@ -608,6 +609,35 @@ func c08CLICases(inj []c08Inj, thorough bool) []c08CLICase {
 		out = append(out, c08CLICase{Tool: "bkl", Files: map[string]string{"in.yaml": content, "ok.yaml": "k: 1\n"}, Args: []string{"-P", "ok.yaml", "in.yaml"}})
 		out = append(out, c08CLICase{Tool: "bkl", Files: map[string]string{"in.yaml": content}, Args: []string{"-P", "-o", "o.json", "in.yaml"}})
 	}
+	// every way to make each of four layer files (two directories, a layer and its child layer in each)
+	// a regular file or a symlink to one of the others: inheritance follows the TARGET's name, so links
+	// can close a cycle without any $parent; every entry point
+	{
+		names := []string{"a/x.yaml", "a/x.k.yaml", "b/y.yaml", "b/y.k.yaml"}
+		rel := func(from, to string) string {
+			r, _ := filepath.Rel(filepath.Dir(from), to)
+			return r
+		}
+		for code := 0; code < 4*4*4*4; code++ {
+			files, links := map[string]string{}, map[string]string{}
+			cdigits := code
+			for i, n := range names {
+				choice := cdigits % 4
+				cdigits /= 4
+				if choice == i {
+					files[n] = fmt.Sprintf("k%d: %d\n", i, i)
+				} else {
+					links[n] = rel(n, names[choice])
+				}
+			}
+			if len(links) == 0 {
+				continue
+			}
+			for _, entry := range names {
+				out = append(out, c08CLICase{Tool: "bkl", Files: files, Links: links, Args: []string{entry}})
+			}
+		}
+	}
 	// malformed command lines
 	for _, a := range [][]string{{}, {"-f", "nope", "in.json"}, {"missing.json"}, {"in.ini"}, {"-o", "/nonexistent-dir/x.json", "in.json"}, {"--bogus"}, {"in.json", "missing.yaml"}} {
 		for _, t := range []string{"bkl", "bkld", "bkli", "bklr"} {
@@ -622,8 +652,13 @@ func c08CLI(c *core.Ctx, cs c08CLICase) {
 	defer os.RemoveAll(dir)
 	var names []string
 	for n, content := range cs.Files {
+		os.MkdirAll(filepath.Dir(filepath.Join(dir, n)), 0o755)
 		os.WriteFile(filepath.Join(dir, n), []byte(content), 0o644)
 		names = append(names, n)
+	}
+	for n, target := range cs.Links {
+		os.MkdirAll(filepath.Dir(filepath.Join(dir, n)), 0o755)
+		os.Symlink(target, filepath.Join(dir, n))
 	}
 	sort.Strings(names)
 	cmd := exec.Command(filepath.Join(core.WorkDir(), "bin", cs.Tool), cs.Args...)
@@ -639,6 +674,9 @@ func c08CLI(c *core.Ctx, cs c08CLICase) {
 	}
 	err := runWithLimit(cmd, limit)
 	wit := cs.Tool + " " + strings.Join(cs.Args, " ") + " :: " + core.JSON(cs.Files)
+	if len(cs.Links) > 0 {
+		wit += " links " + core.JSON(cs.Links)
+	}
 	c.Validated()
 	if err == errWatchdog && c08ConfirmedHangs < 1 {
 		// nominated only: run it once more, alone, with the generous limit before believing it
